@@ -478,6 +478,84 @@ class CompileThenIndex(object):
         finally:
             shutil.rmtree(d, ignore_errors=True)
 
+class TrapsBelowForeignNodes(object):
+    name = 'traps-below-nodes-of-another-module'
+    describe = ('an SMIv1 module with objects and TRAP-TYPEs whose ENTERPRISE node is imported from the vendor\'s registration module, '
+                'declared locally, or written out in braces; 1-2 traps, trap numbers 0 / 5 / 2147483647; both modules compiled '
+                '(relaxed SMIv1 dialect) and indexed, in one build or two: the trap module is listed under the OIDs of its objects '
+                'and traps (<enterprise>.0.<n>) and under no OID it does not define; every OID of both modules is covered')
+
+    def blocks(self, tier):
+        return [{'ent': e} for e in ('imported', 'local', 'braces')]
+
+    def cases(self, block, tier):
+        for nums in ([5], [0], [2147483647], [5, 6]):
+            for builds in (1, 2):
+                for ent_n in (99, 4242):
+                    yield {'ent': block['ent'], 'nums': nums, 'builds': builds, 'n': ent_n}
+
+    def run_case(self, case):
+        from pysmi.compiler import MibCompiler
+        from pysmi.writer.localfile import FileWriter
+        n = case['n']
+        ent = '1.3.6.1.4.1.%d' % n
+        smi = ('ACME-SMI DEFINITIONS ::= BEGIN\nIMPORTS enterprises FROM RFC1155-SMI;\nacme OBJECT IDENTIFIER ::= { enterprises %d }\n'
+               'acmeProducts OBJECT IDENTIFIER ::= { acme 1 }\nEND\n' % n)
+        if case['ent'] == 'imported':
+            imp, local, entclause, trapbase = 'acme FROM ACME-SMI', '', 'acme', ent
+        elif case['ent'] == 'local':
+            imp, local, entclause, trapbase = 'acme FROM ACME-SMI', 'acmeTraps OBJECT IDENTIFIER ::= { acme 9 }\n', 'acmeTraps', ent + '.9'
+        else:
+            imp, local, entclause, trapbase = 'acme FROM ACME-SMI enterprises FROM RFC1155-SMI', '', '{ enterprises %d 8 }' % n, ent + '.8'
+        traps = ''.join('acmeTrap%d TRAP-TYPE ENTERPRISE %s VARIABLES { acmeTemp } DESCRIPTION "d" ::= %d\n' % (i, entclause, num)
+                        for i, num in enumerate(case['nums']))
+        trapmod = ('ACME-TRAP-MIB DEFINITIONS ::= BEGIN\nIMPORTS %s OBJECT-TYPE FROM RFC-1212 TRAP-TYPE FROM RFC-1215;\n%s'
+                   'acmeTemp OBJECT-TYPE SYNTAX INTEGER ACCESS read-only STATUS mandatory DESCRIPTION "t" ::= { acme 7 1 }\n%sEND\n' % (
+                       imp, local, traps))
+        defined = {'ACME-SMI': set([ent, ent + '.1']),
+                   'ACME-TRAP-MIB': set([ent + '.7.1'] + ([ent + '.9'] if case['ent'] == 'local' else []) +
+                                        ['%s.0.%d' % (trapbase, num) for num in case['nums']])}
+        base = os.environ.get('VERIF_TMP') or ('/dev/shm' if os.path.isdir('/dev/shm') else None)
+        d = tempfile.mkdtemp(prefix='mcC18', dir=base)
+        try:
+            parser = env.shared_parser('smiV1Relaxed')
+            parser.reset()
+            comp = MibCompiler(parser, env.JsonCodeGen(), FileWriter(d).setOptions(suffix='.json'))
+            texts = env.base_texts()
+            from mc import v1stubs
+            texts.update(v1stubs.stub_texts([]))
+            texts.update({'ACME-SMI': smi, 'ACME-TRAP-MIB': trapmod})
+            comp.addSources(env.DictReader(texts))
+            comp.addSearchers(env.StubSearcher(*(list(env.BASE_NAMES) + ['RFC1155-SMI', 'RFC-1212', 'RFC-1215'])))
+            sig = 'C18|traps|enterprise-%s' % case['ent']
+            res = comp.compile('ACME-TRAP-MIB')
+            bad = [m for m in defined if res.get(m) != 'compiled']
+            if bad:
+                return 'notcompiled', [('%s|not-compiled' % sig, '%s: %r\n%s' % (bad[0], getattr(res.get(bad[0]), 'error', None), trapmod))], 1
+            if case['builds'] == 1:
+                comp.buildIndex(res)
+            else:
+                comp.buildIndex(dict((k, v) for k, v in res.items() if k == 'ACME-SMI'))
+                comp.buildIndex(dict((k, v) for k, v in res.items() if k == 'ACME-TRAP-MIB'))
+            with open(os.path.join(d, 'index.json')) as f:
+                doc = json.load(f)
+            vs = []
+            oids = doc.get('oids', {})
+            for m, own in sorted(defined.items()):
+                for k, mods in sorted(oids.items()):
+                    if m in mods and k not in own:
+                        vs.append(('%s|listed-under-an-oid-it-does-not-define' % sig, '%s under %s; it defines %r\n%s' % (m, k, sorted(own), trapmod)))
+                for o in sorted(own):
+                    if not any(is_prefix(k, o) and m in v for k, v in oids.items()):
+                        vs.append(('%s|oid-not-covered' % sig, '%s of %s not covered by %r' % (o, m, oids)))
+                got = set(getattr(res[m], 'oids', ()) or ())
+                if got != own:
+                    vs.append(('%s|status.oids-differ' % sig, '%s: %r, defines %r' % (m, sorted(got), sorted(own))))
+            return json.dumps(oids, sort_keys=True), vs, 2
+        finally:
+            shutil.rmtree(d, ignore_errors=True)
+
+
 class FailedThenGood(object):
     name = 'failed-module-next-to-good-ones'
     describe = ('one MibCompiler (JSON): a module that FAILS in the code generator after it has declared nodes (3 kinds of failure, '
@@ -560,4 +638,4 @@ class FailedThenGood(object):
             shutil.rmtree(d, ignore_errors=True)
 
 
-FAMILIES = [Bfs(), Pairs(), BuildIndex(), DamagedIndex(), TwoCompilers(), CompileThenIndex(), FailedThenGood()]
+FAMILIES = [Bfs(), Pairs(), BuildIndex(), DamagedIndex(), TwoCompilers(), CompileThenIndex(), FailedThenGood(), TrapsBelowForeignNodes()]
